@@ -28,6 +28,7 @@ TRUSTED = ["HKDF/SHA-256: the sender, receiver and relay handshake strings of a 
            "neither a prefix of the other: hypotheses of the theorems; the harness uses the real strings)",
            "Twisted Deferred semantics (cancel() fires synchronously; callbacks run in order) and task.Clock ordering",
            "transports deliver no dataReceived after loseConnection()/connectionLost (the harness never does)",
+           "the listening port (a harness object) accepts connections exactly while stopListening() has not been called",
            "real TCP connect/refuse/timeout behaviour, DNS, Tor",
            "the record layer after negotiation (C06): only its boundary is modelled - an incomplete length prefix / "
            "incomplete record waits, a complete record is handed over; no harness peer holds the record keys, so a "
@@ -79,13 +80,23 @@ class FakeEndpoint:
 
 
 class FakePort:
+    """the listening port: inbound connections are delivered only while stopListening() has not been called"""
+
+    def __init__(self):
+        self.stopped = 0
+
     def stopListening(self):
+        self.stopped += 1
         return defer.succeed(None)
 
 
 class FakeServerEndpoint:
+    def __init__(self):
+        self.port = None
+
     def listen(self, f):
-        return defer.succeed(FakePort())
+        self.port = FakePort()
+        return defer.succeed(self.port)
 
 
 class Obs:
@@ -112,9 +123,11 @@ class World:
         self.expect_this = self.t._expect_this()
         self.relay_hs = self.t._build_relay_handshake()
         listener = cfg["listener"]
-        self.t._build_listener = (lambda: ([DirectTCPV1Hint("127.0.0.1", 1, 0.0)], FakeServerEndpoint())) if listener \
+        sep = FakeServerEndpoint()
+        self.t._build_listener = (lambda: ([DirectTCPV1Hint("127.0.0.1", 1, 0.0)], sep)) if listener \
             else (lambda: ([], None))
         self.t.get_connection_hints()
+        self.port = sep.port if listener else None
         self.listener_obs = Obs(self.t._listener_d) if listener else None
         hints = []
         self.labels = []
@@ -136,11 +149,17 @@ class World:
         self.viol = []
 
     # -- ops --------------------------------------------------------------------------------
+    def port_open(self):
+        return self.port is not None and not self.port.stopped
+
+    def fired(self):
+        return self.result is not None and self.result.res != "pending"
+
     def _new_conn(self, factory, relay):
         p = factory.buildProtocol(IPv4Address("TCP", "10.0.0.9", 9))
         p.callLater = self.clock.callLater
         c = dict(p=p, tr=FakeTransport(), obs=Obs(p._negotiation_d), rx=b"", relay=relay, gone=False,
-                 born=self.clock.seconds())
+                 born=self.clock.seconds(), late=self.fired())
         self.conns.append(c)
         return c
 
@@ -168,7 +187,7 @@ class World:
         raised = None
         rc = None          # the connection a raised exception belongs to
         if k == "inbound":
-            if self.listener_obs is None or self.listener_obs.res != "pending":
+            if not self.port_open():
                 return None
             c = rc = self._new_conn(self.t._listener_f, False)
             raised = self._guard(lambda: c["p"].makeConnection(c["tr"]))
@@ -262,7 +281,7 @@ class World:
         pend = len(self.t._listener_f._pending_connections) if self.listener_obs else 0
         timers = len([dc for dc in self.clock.getDelayedCalls() if dc.active()])
         res = self.show_res(self.result.res) if self.result else "pending"
-        return f"W={w} R={res} L={lst} P={pend} T={timers} | " + " ".join(cs)
+        return f"W={w} R={res} L={lst} O={'open' if self.port_open() else 'closed'} P={pend} T={timers} | " + " ".join(cs)
 
     # -- the property, on the real objects, after every event ---------------------------------
     def check(self):
@@ -313,6 +332,22 @@ class World:
                 v.append(("conn-timeout-missed", f"conn {i}: {now - c['born']}s old, state={p.state}, still open"))
         if len(go_conns) > 1:
             v.append(("two-go", f"'go' written on connections {go_conns}"))
+        # the listener's lifetime: once _listener_d has ended, or connect() has fired (either way), the port is stopped
+        if self.port is not None and not self.port.stopped:
+            if self.listener_obs.res != "pending":
+                v.append(("listener-not-stopped", f"_listener_d ended ({self.show_res(self.listener_obs.res)}) but "
+                                                  f"stopListening() was never called: the advertised port still accepts"))
+            if self.fired():
+                v.append(("listener-not-stopped", f"connect() has fired ({self.show_res(self.result.res)}) but the "
+                                                  f"listening port was not stopped"))
+        for i, c in enumerate(self.conns):
+            if c["late"]:
+                v.append(("late-arrival-accepted", f"conn {i} was accepted by the listener {c['born'] - self.t0}s after "
+                                                   f"connect() was called, when connect() had already fired "
+                                                   f"({self.show_res(self.result.res)}); state={c['p'].state}"))
+        if self.sender and self.fired() and self.result.res[0] == "fail" and go_conns:
+            v.append(("go-after-failure", f"the Sender's connect() failed with {self.result.res[1]} but it wrote 'go' on "
+                                          f"connection(s) {go_conns}"))
         if len(ok_conns) > 1:
             v.append(("two-selected", f"negotiation succeeded on connections {ok_conns}"))
         if self.sender and go_conns and (self.t._winner is not self.conns[go_conns[0]]["p"]):
@@ -499,7 +534,7 @@ def gen_case(rng, big=False):
         if step == connect_at:
             do(["connect"])
         choices = []
-        if w.listener_obs is not None and w.listener_obs.res == "pending" and len(w.conns) < 5:
+        if w.port_open() and len(w.conns) < 5:
             choices += ["inbound"] * 2
         for k, lab in enumerate(w.labels):
             ep = w.eps.get(lab)
@@ -546,6 +581,19 @@ def gen_case(rng, big=False):
                 do(["lost", i])
         for dt in rng.choice([[60, 60], [120], [59, 1, 59, 1], [200], [119, 1]]):
             do(["advance", dt])
+    if rng.random() < 0.7:
+        # late arrivals at the advertised port (a key holder whose user was slow, or a stranger): they are only
+        # delivered if the port is still listening, which it must not be once connect() has fired
+        for _ in range(rng.choice([1, 1, 2])):
+            n0 = len(w.conns)
+            if do(["inbound"]) is not None and len(w.conns) > n0:
+                i = n0
+                kind = rng.choice(["honest", "honest", "stranger", "partial"])
+                kinds.append("late-" + kind)
+                s = peer_script(rng, w, False, kind, GO if not w.sender else b"")
+                for ch in chunk(rng, s, rng.choice(["all", "rand"])):
+                    do(["data", i, hx(ch)])
+                do(["advance", rng.choice([0, 1, 30, 60])])
     return dict(cfg=cfg, ops=ops, kinds=kinds, gen="live")
 
 
@@ -591,6 +639,16 @@ def corpus():
     c(R, [["connect"], ["inbound"], ["data", 0, hx(E_r + GO + b"\x00\x00\x00\x01\x00")]], "records-bad-box-same-chunk")
     c(R, [["connect"], ["inbound"], ["data", 0, hx(E_r + GO + b"\x00\x00\x01\x00" + bytes(100))], ["data", 0, hx(bytes(155))],
           ["data", 0, "00"]], "records-256-byte-record")
+    # late arrivals: the listening port must be gone once connect() has fired
+    c(L, [["connect"], ["advance", 120], ["inbound"], ["data", 0, hx(E_s)], ["advance", 10]], "late-keyholder-after-deadline")
+    c(dict(L, directs=1), [["connect"], ["advance", 60], ["advance", 60], ["inbound"], ["data", 0, hx(E_s)]], "late-keyholder-after-deadline-2")
+    c(R, [["connect"], ["connected", 1], ["data", 0, hx(E_r + GO)], ["inbound"], ["data", 1, hx(b"GET / HTTP/1.0\r\n\r\n")],
+          ["advance", 30]], "late-stranger-after-outbound-winner")
+    c(R, [["connect"], ["connected", 1], ["data", 0, hx(E_r + GO)], ["inbound"], ["data", 1, hx(E_r + GO)]], "late-keyholder-after-outbound-winner")
+    c(dict(role="S", listener=True, directs=0, relays=[0]),
+      [["connect"], ["advance", 0], ["connected", 1], ["data", 0, hx(b"ok\n" + E_s)], ["inbound"], ["data", 1, hx(E_s)]],
+      "late-keyholder-after-relay-winner")
+    c(L, [["inbound"], ["data", 0, hx(E_s)], ["inbound"], ["connect"], ["inbound"]], "late-after-early-inbound-winner")
     # cancelled connection whose timer is still running
     c(dict(L, directs=1), [["connect"], ["inbound"], ["connected", 1], ["data", 1, hx(E_s)], ["advance", 60], ["lost", 0], ["advance", 60]], "cancelled-then-timeout")
     return out
